@@ -95,6 +95,10 @@ def _part_a(job):
             if klass not in ('mixed',):
                 cnt['A_degenerate_lists'] = cnt.get('A_degenerate_lists', 0) + 1
             cnt[f'A_class:{klass}'] = cnt.get(f'A_class:{klass}', 0) + 1
+            # the wallet of a session that closed these trades holds the starting balance plus their net PnL
+            from jesse.store import store as _store
+            _ex = _store.exchanges.storage[direct.EXCHANGE]
+            _ex.assets['USDT'] = start + sum(r['pnl'] for r in ref)
             try:
                 m = metrics.trades(trades, daily)
             except Exception as ex:
@@ -110,7 +114,7 @@ def _part_a(job):
                    'longs_count': sum(1 for r in ref if r['type'] == 'long'),
                    'shorts_count': sum(1 for r in ref if r['type'] == 'short'),
                    'largest_winning_trade': max(W) if W else 0, 'largest_losing_trade': min(L) if L else 0,
-                   'starting_balance': start}
+                   'starting_balance': start, 'finishing_balance': start + sum(pn)}
             exp['longs_percentage'] = exp['longs_count'] / n * 100
             exp['shorts_percentage'] = exp['shorts_count'] / n * 100
             wr = len(W) / (len(W) + len(L)) if (W or L) else None
